@@ -38,7 +38,8 @@ TRUSTED_BASE = [
     "ADDR_STR / eval_fst / eval_snd with type tags; pyvc/builtins.py)",
     "strings with a symbolic part (generator contracts): an f-string with one symbolic name and `a + b` on names are "
     "functions of their parts (uninterpreted str_format1 / str_concat); the decimal rendering of an integer inside "
-    "constant text (f\"os_{i}\") is injective in the integer; nothing else is assumed about them",
+    "constant text (f\"os_{i}\") is injective in the integer; str(x) of a string is x and str.lower() is a function of "
+    "the string; nothing else is assumed about them",
     "while loops under a loop contract are proved PARTIALLY correct (no variant: termination is not claimed)",
     "induction principle: lemma obligations named `lemma.*.induction-base` / `-step` are closed formulas over a fresh "
     "function symbol; 'base and step hold, hence the property holds for every index' is the meta-step (used for the "
